@@ -51,6 +51,23 @@ through a third; the other live objects of a history go through Api as well).  e
    dumping)         obj.order_before(f, g) / order_after(f, g) positional and keyword,      copy / pickle on a sample; the ORDER of the
                       f / g = a structured field or another field of the paragraph          fields in the dump is C09's subject: never
                                                                                       a verdict here)
+  refused calls     order_before(f, g) / order_after(f, g) with g ABSENT (an optional structured   H T (action Refused of the model: the caller
+  (error paths;       field the paragraph lacks, or an unknown name), f absent, both absent,        catches whatever comes out and carries on;
+   SIZE_STRESS        f = g; order_first / order_last(absent); del obj[absent]; obj[absent],         the step changes NOTHING -- records, option,
+   part 5)            obj[absent].append(rec)   -- positional / keyword, any spelling                 look-ups, the set of fields a dump writes
+                    sort_fields(key) with a key function that RAISES (CallerFault, OSError,          (KeysListed, RefusedIsAtomic); ordinary steps
+                      ValueError, KeyError) or returns a key NOT COMPARABLE with the others for      of the histories (mode "refuse": before the
+                      one field: at the first, a middle, the last call                               first dump and between dumps, followed by a
+                    dump(fd) with fd.write raising at the first / a middle / the last write          dump, the re-parse of the dump and further
+                      (binary and text_mode), a closed file, a read-only file, a bytes fd with      edits) and of the recorded traces; the outcome
+                      text_mode=True                                                                of the refused call itself is never a verdict;
+                    cls(generator / file object that raises after k lines),                          evidence: refused_calls, traces_with_refused_
+                      cls.iter_paragraphs(such a file), cls(file cut at a line / inside a            calls)
+                      multi-byte character): ANOTHER paragraph fails to be made in the same
+                      process; the living one and the next parse must not notice
+                    obj.update(pairs that raise half-way)                              out: dict.update itself is not atomic
+                    obj[f] = iterable that raises                                      out: the value is stored, not iterated
+                    fd.write returning a short count                                   out: dump() ignores the count (caller's file)
   look-ups          every access of a history / trace (f in obj, obj[f], del obj[f],  H T (the model is abstract in the spelling:
                       obj[f].append, order_*(f)) spells the field name as documented,      look-ups fold case; the class itself asks
                       in lower case or in upper case, whatever spelling it was stored in   with lower-case keys: Visible / KeysFold)
@@ -89,7 +106,7 @@ import core
 
 MANIFEST = dict(
     technique="TLA+ spec (MultiValued: class tables, Build/Dump/Parse/Load, width rule) model-checked by TLC over every subset of every class's structured fields; CASE lines replayed into Dsc/Changes/BuildInfo/PdiffIndex/Release in both directions; recorded life cycles validated by TLC (TraceMultiValued)",
-    text="TLC explores, to a fixed point, every class x Release.size_field_behavior x EVERY subset of the class's structured fields (PdiffIndex: 2^14) x record lists of <= 2 records (sizes of 1..18 characters, single-line form included) and checks DumpTotal, RecordsRoundTrip, SubFieldNames and the width rule (16, or the longest size of the field); the life cycle is a history: after a dump a record may be appended or a size replaced in place, a list re-assigned, a field deleted, and every later dump is checked against the current records; records are positions (identical records stay independent, also in parsed paragraphs), size_field_behavior is state of one object (other live objects are interleaved, a fresh Release is at the default); the public re-ordering operations of the paragraph (sort_fields with the default key or a key function, order_first/last/before/after) are an action of the model that may occur before the first dump and between dumps and changes neither records nor option nor the case-insensitivity of the key set (the class's own lower-case look-ups, obj[f], del obj[f], f in obj in any spelling keep finding every present field: KeysFold); spec-level negative controls (IterateAllFields = the pre-78e977a KeyError, CacheWidths, SharedEqualRecords, ClassLevelOption, StoreBeforeValidate, ReorderStoresPlainKeys, SplitEverySpace) must make TLC report a violation. Each explored paragraph is printed as a CASE line with the expected layout and replayed with concretized tokens: build from records -> dump() -> parse, and parse the expected text -> dump() -> parse; recorded life cycles with up to 6 records, arbitrary token lengths and white space are validated by TLC against the same actions.",
+    text="TLC explores, to a fixed point, every class x Release.size_field_behavior x EVERY subset of the class's structured fields (PdiffIndex: 2^14) x record lists of <= 2 records (sizes of 1..18 characters, single-line form included) and checks DumpTotal, RecordsRoundTrip, SubFieldNames and the width rule (16, or the longest size of the field); the life cycle is a history: after a dump a record may be appended or a size replaced in place, a list re-assigned, a field deleted, and every later dump is checked against the current records; records are positions (identical records stay independent, also in parsed paragraphs), size_field_behavior is state of one object (other live objects are interleaved, a fresh Release is at the default); the public re-ordering operations of the paragraph (sort_fields with the default key or a key function, order_first/last/before/after) are an action of the model that may occur before the first dump and between dumps and changes neither records nor option nor the case-insensitivity of the key set (the class's own lower-case look-ups, obj[f], del obj[f], f in obj in any spelling keep finding every present field: KeysFold); calls on the living object that are REFUSED (order_before/order_after relative to an absent optional field, an absent item or itself, order_first/last, del, [] of an absent field) or fail through an object the caller supplies (a key function that raises or returns incomparable keys, a file object whose write() raises at the k-th call, a file / iterator of lines that raises or ends early while another paragraph is made) are an action of the model too (Refused: nothing changes, in particular every present field is still written by the next dump -- KeysListed, RefusedIsAtomic) and occur before the first dump and between dumps; spec-level negative controls (IterateAllFields = the pre-78e977a KeyError, CacheWidths, SharedEqualRecords, ClassLevelOption, StoreBeforeValidate, ReorderStoresPlainKeys, RefusedUnlinksFirst, SplitEverySpace) must make TLC report a violation. Each explored paragraph is printed as a CASE line with the expected layout and replayed with concretized tokens: build from records -> dump() -> parse, and parse the expected text -> dump() -> parse; recorded life cycles with up to 6 records, arbitrary token lengths and white space are validated by TLC against the same actions.",
     note="Sub-field tables are transcribed from the module docstring (BuildInfo is not listed there: taken from deb-buildinfo(5)/the class). Unspecified: Release/dak with a single-line field (TypeError today), width of a Release/apt-ftparchive field holding a size longer than 16. Separator blanks other than the size padding are diagnostic. Quick tier replays a seed-dependent 1/24 sample of the PdiffIndex subsets (all are model-checked), thorough replays every subset. Trusted: TLC, the layout projection (regex over dump()), the concretizer.",
     design="5 (C12)")
 
@@ -139,6 +156,18 @@ BUILD_VARIANTS = ["setitem", "setitem_deb822dict", "update_dict", "update_kw", "
 DUMP_VARIANTS = ["dump", "str", "bytes", "unicode", "fd_text", "fd_text_kw", "fd_bin", "fd_bin_enc", "fd_kw", "get_as_string", "fd_fileobj"]
 DUMP_FILES = ["fd_text", "fd_bin", "fd_kw", "fd_fileobj", "fd_fileobj", "fd_fileobj"]
 REORDER_KINDS = ["sort", "sortkey", "first", "last", "before", "after"]
+# calls on the living object that are REFUSED / fail through a caller-supplied object (action Refused of the model)
+REFUSED_KINDS = ["before", "after", "first", "last", "delete", "getitem", "sortkey", "dumpfault", "parsefault"]
+NOFIELD = 99         # the model's name for "an absent field outside the tables"
+ABSENT_NAMES = ["X-No-Such-Field", "Checksums-Sha3", "SHA3-512", "x-absent"]
+REFUSED_COUNTS = {}  # "kind -> outcome" -> number (evidence: refused_calls)
+
+
+class CallerFault(Exception):
+    """the private exception of a caller-supplied object (key function, file object, iterator of lines)"""
+
+
+FAULT_EXCS = [CallerFault, OSError, ValueError, KeyError]
 # kinds of file objects (notes/SIZE_STRESS.md part 4); "b" = yields / takes bytes, "t" = text
 FILE_KINDS_IN = ["BytesIO", "StringIO", "file_rb", "file_rb_unbuffered", "file_rt", "shortreads", "shortreads_text",
                  "gzip", "gzip_text", "gzip_fileobj", "bz2", "lzma", "spooled_b", "spooled_t", "line_generator"]
@@ -493,6 +522,158 @@ class Api:
         m = obj.order_before if kind == "before" else obj.order_after
         m(field=f, reference_field=g) if kw else m(f, g)
         return "order_%s(%r, %r)" % (v, f, g)
+
+    # ---- calls the object REFUSES, and calls that fail through an object the caller supplies
+    def absent_name(self, obj):
+        """the name of a field outside the tables that the paragraph does not have"""
+        names = [n for n in ABSENT_NAMES if n not in obj] or ["X-Absent-Field-%d" % len(list(obj.keys()))]
+        return names[0] if self.primary else self.rng.choice(names)
+
+    def fault_at(self, n):
+        """the call (1-based) at which a caller-supplied object faults: the first, a middle or the last of n"""
+        where = self.pick("fault_at", ["first", "middle", "last"])
+        return max(1, {"first": 1, "middle": (n + 1) // 2, "last": n}[where])
+
+    def fault_exc(self):
+        return FAULT_EXCS[0] if self.primary else self.rng.choice(FAULT_EXCS)
+
+    def refused(self, *args):
+        import warnings
+        with warnings.catch_warnings():
+            warnings.simplefilter("ignore")       # (e.g. the UnicodeWarning of a source that ends inside a character)
+            return self._refused(*args)
+
+    def _refused(self, obj, kind, fname, gname, lnames, cname):
+        """one refused call on the living object `obj` (module docstring: refused calls).  The caller catches
+        whatever comes out and carries on; the outcome of the call itself is never a verdict (the model's step
+        changes nothing, and so does a re-ordering that happens to be accepted).  Returns a description."""
+        import io
+        self.pick("refused", [kind])
+        how = kind
+        try:
+            if kind in ("before", "after", "first", "last"):
+                how = "order_%s(%s)" % (kind, ", ".join(repr(x) for x in (fname, gname) if x is not None))
+                self.reorder(obj, kind, fname, gname)
+            elif kind == "delete":
+                f = self.spell(fname)
+                how = "del obj[%r]" % f
+                del obj[f]
+            elif kind == "getitem":
+                f = self.spell(fname)
+                v = self.pick("refused_getitem", ["obj[f]", "obj[f].append(rec)", "obj.pop(f)-like: del after get"])
+                how = "%s with f=%r" % (v, f)
+                if v == "obj[f]":
+                    obj[f]
+                elif v == "obj[f].append(rec)":
+                    obj[f].append({"size": "1"})
+                else:
+                    obj[f]
+                    del obj[f]
+            elif kind == "sortkey":
+                mode = self.pick("fault_key", ["raises", "incomparable"])
+                at, exc, calls = self.fault_at(len(list(obj.keys()))), self.fault_exc(), [0]
+
+                def fn(name):
+                    calls[0] += 1
+                    if calls[0] == at:
+                        if mode == "raises":
+                            raise exc("the caller's key function fails for %r" % (name,))
+                        return None                 # not comparable with the str keys of the other fields
+                    return str(name).lower()
+                how = "sort_fields(key %s at call %d)" % (mode if mode != "raises" else "raises " + exc.__name__, at)
+                if self.pick("reorder_call", ["sort_fields(key=fn)", "sort_fields(fn)"]) == "sort_fields(fn)":
+                    obj.sort_fields(fn)
+                else:
+                    obj.sort_fields(key=fn)
+            elif kind == "dumpfault":
+                v = self.pick("fault_fd", ["write raises (binary)", "write raises (text)", "closed file", "read-only file", "bytes fd, text_mode=True"])
+                how = "dump(fd: %s)" % v
+                if v.startswith("write raises"):
+                    textmode = v.endswith("(text)")
+
+                    class Fd:
+                        def __init__(self, at=0, exc=None):
+                            self.n, self.at, self.exc = 0, at, exc
+
+                        def write(self, data):
+                            self.n += 1
+                            if self.n == self.at:
+                                raise self.exc("the caller's file object fails at write() number %d" % self.n)
+                            return len(data)
+                    cnt = Fd()
+                    obj.dump(cnt, text_mode=True) if textmode else obj.dump(cnt)
+                    at, exc = self.fault_at(cnt.n), self.fault_exc()
+                    how = "dump(fd: write() number %d of %d raises %s, %s)" % (at, cnt.n, exc.__name__, "text" if textmode else "binary")
+                    obj.dump(Fd(at, exc), text_mode=True) if textmode else obj.dump(fd=Fd(at, exc))
+                elif v == "closed file":
+                    fd = io.BytesIO()
+                    fd.close()
+                    obj.dump(fd)
+                elif v == "read-only file":
+                    fo, closer = open_input("file_rb", "x\n")
+                    try:
+                        obj.dump(fo)
+                    finally:
+                        closer()
+                else:
+                    obj.dump(io.BytesIO(), text_mode=True)
+            elif kind == "parsefault":
+                text, res = do_dump(obj)
+                if res != "ok" or not text.strip():
+                    text = "Origin: Debian\nSource: hello\n"
+                cls = get_class(cname)
+                data = text.encode("utf-8")
+                lines = data.splitlines(True)
+                v = self.pick("fault_src", ["generator raises", "file raises", "iter_paragraphs(file raises)", "early EOF", "cut inside a character"])
+                at, exc = self.fault_at(len(lines)), self.fault_exc()
+                how = "%s(%s at line %d of %d)" % (cname, v, at, len(lines))
+                if v == "generator raises":
+                    def gen():
+                        for i, ln in enumerate(lines, 1):
+                            if i == at:
+                                raise exc("the caller's iterator fails at line %d" % i)
+                            yield ln
+                    cls(gen())
+                elif v in ("file raises", "iter_paragraphs(file raises)"):
+                    class Fo(io.BytesIO):
+                        n = 0
+
+                        def _tick(self):
+                            self.n += 1
+                            if self.n == at:
+                                raise exc("the caller's file object fails at line %d" % self.n)
+
+                        def __next__(self):
+                            self._tick()
+                            return io.BytesIO.__next__(self)
+
+                        def readline(self, *a):
+                            self._tick()
+                            return io.BytesIO.readline(self, *a)
+
+                        def read(self, *a):
+                            self._tick()
+                            return io.BytesIO.read(self, *a)
+                    if v == "file raises":
+                        cls(Fo(data))
+                    else:
+                        list(cls.iter_paragraphs(Fo(data + b"\nOther-Paragraph: 1\n"), use_apt_pkg=False))
+                elif v == "early EOF":
+                    cut = sum(len(ln) for ln in lines[:at]) - (0 if self.primary else self.rng.randrange(3))
+                    cls(io.BytesIO(data[:max(0, cut)]))
+                else:
+                    # "Origin: D" = 9 bytes, U+00E9 = bytes 9..10, "bian " = 11..15, U+4E2D = bytes 16..18
+                    cls(io.BytesIO(("Origin: D\u00e9bian \u4e2d\u6587\n".encode("utf-8") + data)[:(10, 17, 18)[at % 3]]))
+            else:
+                raise core.MachineryError("unknown refused call %r" % kind)
+            out = "accepted"
+        except core.MachineryError:
+            raise
+        except Exception as e:
+            out = type(e).__name__
+        key = "%s -> %s" % (kind, out)
+        REFUSED_COUNTS[key] = REFUSED_COUNTS.get(key, 0) + 1
+        return "%s -> %s" % (how, out)
 
     def setbeh(self, obj, v):
         if self.pick("setbeh", ["property", "set_size_field_behavior"]) == "property":
@@ -1035,6 +1216,18 @@ def other_step(others, cname, v, tables, api=None):
         return "other %s object (behaviour %s) raised %s: %s" % (cname, v, type(e).__name__, e)
 
 
+def refused_names(api, obj, table, lnames, kind, f, g):
+    """the field names of a refused call: index of a structured field (present or absent, as the model says),
+    0 = a present field outside the tables, NOFIELD = an absent one"""
+    def name(x):
+        return api.context_field(obj, lnames) if x == 0 else api.absent_name(obj) if x == NOFIELD else table[x - 1]["f"]
+    if kind in ("before", "after"):
+        return name(f), name(g)
+    if kind in ("first", "last", "delete", "getitem"):
+        return name(f), None
+    return None, None
+
+
 def run_history(ctx, case, conc, variant, tables):
     """replay a history on ONE living object (made from records or parsed from text, as the model
     says; its size_field_behavior assigned only if the model says so), interleaved with steps of
@@ -1127,6 +1320,12 @@ def run_history(ctx, case, conc, variant, tables):
                 beh = st[1]
                 api.setbeh(obj, beh)
                 done.append("size_field_behavior:=%s" % beh)
+                continue
+            if op == "refused":
+                fname, gname = refused_names(api, obj, table, lnames, st[1], st[2], st[3])
+                done.append("REFUSED " + api.refused(obj, st[1], fname, gname, lnames, cname))
+                if variant.get("copy_after_reorder"):
+                    obj = api.transform(obj, beh if cname == "Release" else "-")
                 continue
             if op == "reorder":
                 kind, f, g = st[1], st[2], st[3]
@@ -1287,11 +1486,38 @@ def gen_recipe(rng, tables, big=0):
             "extra": rng.randrange(5) if rng.random() < 0.4 else 0,
             "api": rng.randrange(1, 10 ** 9) if rng.random() < 0.8 else 0,
             "align": rng.randrange(1, 10 ** 9) if direction == "given" and fields and rng.random() < 0.07 else 0,
-            "pre": [gen_reorder(rng, [x["f"] for x in fields]) for _ in range(rng.choice([0, 0, 0, 1, 1, 2]))],
+            "pre": [(gen_refused if rng.random() < 0.4 else gen_reorder)(rng, [x["f"] for x in fields], n)
+                    for _ in range(rng.choice([0, 0, 0, 1, 1, 2]))],
             "muts": gen_mutations(rng, table, fields, cname)}
 
 
-def gen_reorder(rng, present):
+def gen_refused(rng, present, nfields):
+    """a call the living object refuses, drawn from the whole domain of the model's action Refused: order_before /
+    order_after with an absent reference / absent item / item = reference, order_first / order_last / del / [] of an
+    absent field, a faulting key function / fd / source of lines; f, g = index of a structured field, 0 (a present
+    field outside the tables) or NOFIELD (an absent one)"""
+    here = list(present) + [0]
+    gone = [x for x in range(1, nfields + 1) if x not in present] + [NOFIELD]
+    kind = rng.choice(REFUSED_KINDS + ["before", "after"])
+    f = g = 0
+    if kind in ("before", "after"):
+        shape = rng.choice(["absent reference", "absent reference", "absent item", "both absent", "itself"])
+        if shape == "absent reference":
+            f, g = rng.choice(present or here), rng.choice(gone)
+            if rng.random() < 0.2:
+                f = 0
+        elif shape == "absent item":
+            f, g = rng.choice(gone), rng.choice(here)
+        elif shape == "both absent":
+            f, g = rng.choice(gone), rng.choice(gone)
+        else:
+            f = g = rng.choice(here)
+    elif kind in ("first", "last", "delete", "getitem"):
+        f = rng.choice(gone)
+    return {"op": "refused", "kind": kind, "f": f, "g": g, "copy": rng.random() < 0.3}
+
+
+def gen_reorder(rng, present, nfields=0):
     """a re-ordering operation on the fields: sort_fields() / sort_fields(key) / order_first / order_last /
     order_before / order_after; f, g = a present structured field or 0 (a field outside the tables)"""
     cand = list(present) + [0]
@@ -1318,10 +1544,10 @@ def gen_mutations(rng, table, fields, cname):
         multi = [f for f in cur if cur[f]["form"] == "multi"]
         ops = ["assign"] + (["append", "append", "setsize", "setsize", "setsize"] if multi else []) + (["delete"] if cur else [])
         ops += ["other", "other"] + (["setbeh", "setbeh", "setbehfails", "setbehfails"] if cname == "Release" else [])
-        ops += ["reorder"] * 3
+        ops += ["reorder"] * 3 + ["refused"] * 4
         op = rng.choice(ops)
-        if op == "reorder":
-            muts.append(gen_reorder(rng, sorted(cur)))
+        if op in ("reorder", "refused"):
+            muts.append((gen_reorder if op == "reorder" else gen_refused)(rng, sorted(cur), len(table)))
             muts[-1]["single_left"] = any(v["form"] == "single" for v in cur.values())
             continue
         if op == "setbehfails":
@@ -1512,8 +1738,15 @@ def execute(recipe, tables):
         events.append({"op": "reorder", "kind": mu["kind"], "f": mu["f"], "g": mu["g"]})
         return xform(obj) if mu.get("copy") else obj
 
+    def do_refused(obj, mu):
+        """a call the object refuses / that fails through a caller-supplied object: logged whatever comes out"""
+        fname, gname = refused_names(api, obj, table, lnames, mu["kind"], mu["f"], mu["g"])
+        how = api.refused(obj, mu["kind"], fname, gname, lnames, cname)
+        events.append({"op": "refused", "kind": mu["kind"], "f": mu["f"], "g": mu["g"], "how": how[:120]})
+        return xform(obj) if mu.get("copy") else obj
+
     for mu in recipe.get("pre", []):
-        obj = do_reorder(obj, mu)
+        obj = (do_refused if mu["op"] == "refused" else do_reorder)(obj, mu)
         if obj is None:
             return tr
     fresh = dump_parse(obj, unspecified)
@@ -1551,11 +1784,11 @@ def execute(recipe, tables):
                 events.append({"op": "error", "what": "setting size_field_behavior raised %s: %s" % (type(e).__name__, e)})
                 return tr
             events.append({"op": "setbeh", "v": mu["v"]})
-        elif mu["op"] == "reorder":
-            obj = do_reorder(obj, mu)
+        elif mu["op"] in ("reorder", "refused"):
+            obj = (do_refused if mu["op"] == "refused" else do_reorder)(obj, mu)
             if obj is None:
                 return tr
-        if mu["op"] in ("other", "setbeh", "setbehfails", "reorder"):
+        if mu["op"] in ("other", "setbeh", "setbehfails", "reorder", "refused"):
             if dump_parse(obj, cname == "Release" and cur_beh == "dak" and mu["single_left"]) is None:
                 return tr
             continue
@@ -1642,6 +1875,13 @@ def corrupt(t, how):
                 and evs[i + 1]["fields"]:
             evs[i + 1]["fields"].pop(0)
             return t
+        if how == "lost_after_refused" and e["op"] == "refused" and i + 1 < len(evs) and evs[i + 1]["op"] == "dump" \
+                and evs[i + 1]["fields"]:
+            # pretend the dump after a refused call no longer writes one of the present fields
+            lost = evs[i + 1]["fields"].pop(0)["f"]
+            if i + 2 < len(evs) and evs[i + 2]["op"] == "parse":
+                evs[i + 2]["fields"] = [fl for fl in evs[i + 2]["fields"] if fl["f"] != lost]
+            return t
         if how == "stalewidth" and e["op"] in ("append", "setsize") and t["cls"] in ("Release", "PdiffIndex") \
                 and t["beh"] != "apt-ftparchive" and i + 1 < len(evs) and evs[i + 1]["op"] == "dump":
             # pretend the dump after an in-place mutation still pads to some other width
@@ -1657,7 +1897,7 @@ def validate(ctx, traces, with_controls=True):
     controls = []
     if with_controls:
         for how in ("swap", "name", "drop", "pad", "keyerror", "lostfield", "lostmutation", "stalewidth", "aliased",
-                    "unpadded_after_reorder", "lost_after_reorder"):
+                    "unpadded_after_reorder", "lost_after_reorder", "lost_after_refused"):
             for t in traces:
                 c = corrupt(t, how)
                 if c:
@@ -1749,8 +1989,9 @@ def run(ctx):
         "D3: record lists are non-empty, a record has one token per documented sub-field, tokens contain no white space = no code point str.split() splits on (the 29 code points with str.isspace(), incl. NBSP, U+2003, U+3000; U+200B and U+FEFF are allowed); tokens are otherwise arbitrary Unicode (non-NFC text and its precomposed twin as different tokens, non-BMP, zero-width characters), compared by code point",
         "rejected operations: an illegal size_field_behavior whose exception is caught must leave the option unchanged (if it is accepted instead: unspecified); a record with a newline / white-space token is outside the domain -- executed before a re-assignment or deletion of the field, its outcome is ignored and must leave no trace",
         "size dimension (notes/SIZE_STRESS.md): the model is abstract in the number of records and in the length of digests/names; replayed cases are also run with their records replicated to 9..257 (a few: 1000) records, identical and fresh copies, and with tokens of boundary lengths up to 4097; recorded traces contain up to 1000 records, sizes of 1..25 digits (2**31, 2**63, 10**18, leading zeros), names up to 1025 characters, identical records",
-        "model: <= 2 records per field in the closed configurations (sizes 1..18 characters), histories of <= 2 mutations (append / size in place / assign / delete / one re-ordering of the fields, also before the first dump) with a dump after each; up to 6 records, arbitrary lengths, up to 3 mutations and any number of re-orderings in the recorded traces",
+        "model: <= 2 records per field in the closed configurations (sizes 1..18 characters), histories of <= 2 mutations (append / size in place / assign / delete / one re-ordering of the fields / one refused call, also before the first dump) with a dump after each; up to 6 records, arbitrary lengths, up to 3 mutations and any number of re-orderings and refused calls in the recorded traces",
         "re-ordering the fields (sort_fields, order_first/last/before/after) between building / parsing and dumping is inside the domain: the paragraph is still 'a paragraph built from records' / 'a parsed paragraph'; the ORDER of the fields in the dump is never a verdict (C09); key functions are total and their results comparable; field names are asked for in any spelling (look-ups are documented to be case-insensitive)",
+        "refused calls (error paths, notes/SIZE_STRESS.md part 5) are inside the domain: the statement quantifies over 'every subset of the class's structured fields being present' and 'a parsed paragraph' / 'a paragraph built from records', and a call that raises (a re-ordering relative to an ABSENT optional field, an absent item, itself; deletion / look-up of an absent field; sort_fields with a faulting key function; dump(fd) with a faulting fd; a faulting source of lines for another paragraph) is caught by the caller and leaves such a paragraph: the model's step changes nothing, the next dump must write every present field with the same records; what the refused call itself raises (or whether it is accepted) is never a verdict",
         "file objects (notes/SIZE_STRESS.md part 4): the expected result does not depend on the kind of file object nor on where the block boundaries fall; every kind in FILE_KINDS_IN / FILE_KINDS_OUT is used in every run, aligned cases put a line end at / next to byte offsets 2**9..2**17",
         "unspecified (executed, any outcome accepted): Release/dak with a single-line field; width of a Release/apt-ftparchive field holding a size of more than 16 characters",
         "blanks other than the padding of the size column of Release/PdiffIndex multi-line fields are diagnostic (spec_drift), not verdicts",
@@ -1770,7 +2011,8 @@ def run(ctx):
             "neg_shared": ("SharedEqualRecords", ("EditIsLocal",)),
             "neg_classopt": ("ClassLevelOption", ("WidthTable", "WidthRule")),
             "neg_storefirst": ("StoreBeforeValidate", ("DumpTotal", "OtherIsOther")),
-            "neg_plainkeys": ("ReorderStoresPlainKeys", ("WidthTable", "WidthRule"))}
+            "neg_plainkeys": ("ReorderStoresPlainKeys", ("WidthTable", "WidthRule")),
+            "neg_refused": ("RefusedUnlinksFirst", ("DumpExplains", "RecordsRoundTrip"))}
     # these spec-level controls do not depend on the tree: one of them per quick run (by seed), all in thorough
     todo = sorted(negs) if not quick else [sorted(negs)[ctx.seed % len(negs)]]
     for name in todo:
@@ -1834,10 +2076,11 @@ def run(ctx):
     ctx.extra["api_variants"] = dict(sorted(API_COUNTS.items()))
     expected = (["parse:" + v for v in PARSE_VARIANTS] + ["build:" + v for v in BUILD_VARIANTS] + ["dump:" + v for v in DUMP_VARIANTS]
                 + ["xform:" + v for v in XFORM_VARIANTS] + ["setbeh:property", "setbeh:set_size_field_behavior"]
-                + ["reorder:" + v for v in REORDER_KINDS] + ["fkind_in:" + v for v in FILE_KINDS_IN] + ["fkind_out:" + v for v in FILE_KINDS_OUT])
+                + ["reorder:" + v for v in REORDER_KINDS] + ["refused:" + v for v in REFUSED_KINDS] + ["fkind_in:" + v for v in FILE_KINDS_IN] + ["fkind_out:" + v for v in FILE_KINDS_OUT])
     missing = [v for v in expected if not API_COUNTS.get(v)]
     if missing and not ctx.violations:       # (a run cut short by violations need not have reached every variant)
         raise core.MachineryError("API variants never exercised in this run: %s" % missing)
+    ctx.extra["refused_calls"] = dict(sorted(REFUSED_COUNTS.items()))
     ctx.extra["aligned_cases"] = stats.get("aligned", {})
     ctx.extra["file_object_kinds"] = {"input": {k[9:]: v for k, v in sorted(API_COUNTS.items()) if k.startswith("fkind_in:")},
                                       "output": {k[10:]: v for k, v in sorted(API_COUNTS.items()) if k.startswith("fkind_out:")}}
@@ -1860,6 +2103,10 @@ def run(ctx):
     ctx.extra["traces_unspecified_dumps"] = sum(1 for t in traces if "unspecified_dump" in t)
     ctx.extra["traces_aligned"] = sum(1 for t in traces if t.get("aligned"))
     ctx.extra["traces_with_reorder"] = sum(1 for t in traces if any(e["op"] == "reorder" for e in t["events"]))
+    ctx.extra["traces_with_refused_calls"] = sum(1 for t in traces if any(e["op"] == "refused" for e in t["events"]))
+    ex = next((e for t in traces for e in t["events"] if e["op"] == "refused" and e["kind"] in ("before", "after")), None)
+    if ex:
+        ctx.sample("refused call in a recorded trace: " + ex["how"])
     ex = next((t for t in traces if t["cls"] == "PdiffIndex" and len(t["events"]) >= 3), traces[0])
     ctx.sample("recorded trace: " + json.dumps({"cls": ex["cls"], "beh": ex["beh"], "events": ex["events"][:2]},
                                               separators=(",", ":"))[:600])
@@ -1962,6 +2209,8 @@ def describe_event(t, ev):
         return "%s %s" % (ev["op"], ev.get("c", "") + ":=" + ev["v"])
     if ev["op"] == "setbehfails":
         return "rejected assignment to size_field_behavior"
+    if ev["op"] == "refused":
+        return "refused call %s" % ev.get("how", ev["kind"])
     return ev["op"]
 
 
